@@ -146,6 +146,10 @@ func (g *G) genAction(f *FlowSpec, nd *nodeDraft, loc J) J {
 	if g.P.ListHeavy && t.Chance("list_action", 1, 3) {
 		kind = []string{"send_broadcast", "start_session", "send_broadcast", "add_contact_groups", "add_input_labels", "send_email"}[t.Pick("list_action_kind", 6)]
 	}
+	if g.P.OrderSensitive && t.Chance("service_action", 1, 6) {
+		// provider responses are maps (intents, entities, products): every service client is an order-dependence candidate
+		kind = []string{"call_classifier", "call_classifier", "call_classifier", "transfer_airtime", "call_resthook", "call_webhook"}[t.Pick("service_action_kind", 6)]
+	}
 	if g.forceKind != "" {
 		kind = g.forceKind
 	}
@@ -195,8 +199,10 @@ func (g *G) genAction(f *FlowSpec, nd *nodeDraft, loc J) J {
 		if len(g.S.Template) > 0 && t.Chance("templating", 1, 4) {
 			tp := g.S.Template[0]
 			a["template"] = J{"uuid": tp["uuid"], "name": tp["name"]}
-			vars := []string{"@contact.name", g.tmpl(false), "Yes"}
-			a["template_variables"] = toAnyS(vars[:1+t.Pick("ntplvars", 3)])
+			media := []string{"image/jpeg:http://x.com/cat.jpg", "application/pdf:http://x.com/" + strings.Repeat("y", 2100), "image/jpeg:http://x.com/@(repeat(\"z\", 2100)).jpg",
+				"@fields.nick", "video/mp4:http://x.com/" + strings.Repeat("v", 2023)}[t.Weighted("tplmedia", 4, 1, 1, 1, 1)]
+			vars := []string{"@contact.name", g.tmpl(false), "Yes", media}
+			a["template_variables"] = toAnyS(vars[:1+t.Pick("ntplvars", 4)])
 		}
 		if t.Chance("topic", 1, 8) {
 			a["topic"] = []string{"event", "account", "purchase", "agent"}[t.Pick("topickind", 4)]
